@@ -43,6 +43,8 @@ def c_binop(rng, fn):
     prec = gen.pick_prec(rng, allow_zero=fn in ("mpf_add", "mpf_sub", "mpf_mul", "gmpy_mpf_mul"))
     rnd = rng.choice(RND)
     s, t = gen.pair(rng, prec)
+    if fn in ("mpf_add", "mpf_sub") and prec and rng.random() < 0.35:
+        s, t = add_boundary(rng, prec)
     if prec == 0 and fin(s) and fin(t) and s[1] and t[1] and abs((s[2]) - (t[2])) > 5000:
         t = (t[0], t[1], s[2] + rng.randint(-3000, 3000), t[3])
     f = {"mpf_add": L.mpf_add, "mpf_sub": L.mpf_sub, "mpf_mul": L.python_mpf_mul,
@@ -189,13 +191,14 @@ def c_div_directed(rng, fn="mpf_div"):
 
 def c_sqrt(rng, fn):
     prec = gen.pick_prec(rng)
+    if rng.random() < 0.35: prec = rng.randint(1, 64)
     rnd = rng.choice(RND)
     k = rng.randrange(6)
     if k == 0:
         s = gen.value(rng, prec)
     elif k in (1, 2, 3):
         # perfect square, square +- 1, at sizes around 2*prec
-        rb = rng.choice([prec, prec + 1, max(1, prec - 1), rng.randint(1, 150)])
+        rb = rng.choice([prec, prec + 1, max(1, prec - 1), rng.randint(1, 150), rng.randint(20, 60)])
         root = gen.mant(rng, max(1, rb), prec)
         sq = root * root + (0 if k == 1 else rng.choice([1, -1]))
         if sq <= 0: sq = root * root
@@ -400,6 +403,45 @@ def c_bitcount(rng, fn):
     return Case(fn, [n], lambda: call_impl(LI.python_bitcount, n), ("int", n.bit_length()), rounded=False, ret_mpf=False)
 
 
+def c_isqrt(rng, fn):
+    """integer square roots around perfect squares at every size (float-estimate shortcuts, Newton start values)"""
+    kb = rng.choice([rng.randint(1, 30), rng.randint(20, 60), rng.randint(45, 110), rng.randint(100, 420), rng.randint(390, 900)])
+    K = gen.mant(rng, kb) if rng.random() < 0.7 else (1 << kb) - rng.randint(0, 3)
+    k = rng.randrange(6)
+    if k == 0: n = K * K
+    elif k == 1: n = K * K - 1
+    elif k == 2: n = K * K + 2 * K          # (K+1)^2 - 1
+    elif k == 3: n = K * K - rng.randint(1, 5)
+    elif k == 4: n = (K * K - 1) << (2 * rng.randint(0, 8))
+    else: n = rng.getrandbits(2 * kb) | 1
+    n = max(n, 0)
+    r = math.isqrt(n)
+    if fn == "isqrt":
+        f = rng.choice([LI.isqrt, LI.isqrt_small_python, LI.isqrt_python] if hasattr(LI, "isqrt_python") else [LI.isqrt, LI.isqrt_small_python])
+        return Case(fn, [n], lambda: call_impl(f, n), ("int", r), rounded=False, ret_mpf=False)
+    return Case(fn, [n], lambda: call_impl(LI.sqrtrem, n), ("ints2", (r, n - r * r)), rounded=False, ret_mpf=False)
+
+
+def add_boundary(rng, prec):
+    """operand pairs for mpf_add/mpf_sub aimed at the far-apart-exponent shortcut: the small operand's top bit sits
+    within a few bits of the rounding cut of the big one (incl. half-ulp ties below a power of two), while its
+    long mantissa pushes the exponent offset beyond 100"""
+    p = prec or 53
+    sb = rng.choice([1, 1, 2, rng.randint(1, p + 8), p, p + 1, p + 5, rng.randint(1, 300)])
+    k = rng.randrange(4)
+    sm = {0: 1 << (sb - 1), 1: (1 << sb) - 1, 2: (1 << (sb - 1)) | 1}.get(k, gen.mant(rng, sb, prec))
+    E = rng.randint(-300, 300)
+    s = gen.norm(rng.randrange(2), sm, E)
+    top_s = s[2] + s[3]
+    delta = p + rng.choice([-3, -2, -1, 0, 0, 1, 1, 1, 2, 2, 3, 4, 4, 5, 5, 6, 7, 8])
+    need = max(1, 101 - delta + s[3] + rng.randint(-3, 30))
+    tb = need if rng.random() < 0.7 else rng.randint(1, need + 50)
+    tm = gen.mant(rng, tb, None)
+    if rng.random() < 0.3: tm = 1 << (tb - 1) | 1
+    t = gen.norm(rng.randrange(2) if rng.random() < 0.5 else 1 - s[0], tm, top_s - delta - tb)
+    return (s, t) if rng.random() < 0.5 else (t, s)
+
+
 def c_sum(rng, fn):
     prec = gen.pick_prec(rng, allow_zero=True)
     rnd = rng.choice(RND)
@@ -444,7 +486,7 @@ GENS = {
     "mpf_round_int": c_round_int_mpf, "to_int": c_to_int, "round_int": c_round_int,
     "mpf_eq": c_cmp, "mpf_cmp": c_cmp, "mpf_lt": c_cmp, "mpf_le": c_cmp, "mpf_gt": c_cmp, "mpf_ge": c_cmp,
     "mpf_hash": c_hash, "mpf_sign": c_sign, "mpf_shift": c_shift, "mpf_frexp": c_frexp, "to_fixed": c_to_fixed,
-    "bitcount": c_bitcount, "trailing": c_bitcount, "mpf_sum": c_sum,
+    "bitcount": c_bitcount, "trailing": c_bitcount, "mpf_sum": c_sum, "isqrt": c_isqrt, "sqrtrem": c_isqrt,
 }
 EXTRA = {"mpf_div": [c_div_directed]}
 
@@ -580,4 +622,6 @@ def spec_check(case, out):
                 if bool(payload[0]) != want: bad.append(("VALUE", "%s disagrees with exact order" % case.fn))
             elif payload[0] != case.exact[1]:
                 bad.append(("VALUE", "integer result differs from exact value"))
+        elif kind == "ints2":
+            if tuple(payload[:2]) != tuple(case.exact[1]): bad.append(("VALUE", "sqrtrem differs from the exact root and remainder"))
     return bad
